@@ -468,6 +468,10 @@ pub mod platform;
 pub mod string_dict;
 pub mod value;
 
+// Verification hooks (only when tsrun_verif feature is enabled)
+#[cfg(feature = "tsrun_verif")]
+pub mod verif;
+
 // C FFI module (only when c-api feature is enabled)
 #[cfg(feature = "c-api")]
 pub mod ffi;
